@@ -389,7 +389,23 @@ func isLiteral(s string) bool {
 // refBound: every reference value is nil (0), a global (negative), an initially allocated object
 // (1..ALLOC0) or one of the objects allocated on this path so far.
 func (x *Exec) refBound(st *State, t Term) Term {
+	if readsInitialHeap(t.S) {
+		// a reference held by the heap as it was at function entry denotes an object that existed then:
+		// it cannot be one of the objects allocated on this path
+		return Term{fmt.Sprintf("(<= %s ALLOC0)", t.S), SBool}
+	}
 	return Term{fmt.Sprintf("(<= %s (+ ALLOC0 %d))", t.S, st.allocN), SBool}
+}
+
+// readsInitialHeap: the term is (select H0_… a) or (select (select H0_… a) k): a read of an entry-state array.
+func readsInitialHeap(s string) bool {
+	for strings.HasPrefix(s, "(select ") {
+		s = s[len("(select "):]
+		if strings.HasPrefix(s, "H0_") {
+			return true
+		}
+	}
+	return false
 }
 
 func isNilable(t types.Type) bool {
